@@ -88,8 +88,8 @@ def scalar_attrs(prog):
     """attribute names that only ever hold immutable scalars (so `obj.attr op= v` rebinds, it cannot mutate in place):
     every plain binding in the package assigns a scalar constant, or a parameter that all call sites bind to a scalar
     constant."""
-    if id(prog) in _scalar_cache:
-        return _scalar_cache[id(prog)]
+    if '_scalar_attrs' in prog.__dict__:
+        return prog.__dict__['_scalar_attrs']
     from . import kernels
     binds = {}
     for f in prog.funcs:
@@ -138,7 +138,7 @@ def scalar_attrs(prog):
                 break
         if ok:
             out.add(name)
-    _scalar_cache[id(prog)] = out
+    prog.__dict__['_scalar_attrs'] = out
     return out
 
 
